@@ -146,7 +146,7 @@ impl TransportVisitor for VBuf {
                         if posted == 0 {
                             continue;
                         }
-                        (0u8, crate::engine::chooser::deviate(posted, "which posted buffer the device fills (default: oldest)"), 1 + crate::engine::chooser::deviate(2, "frame length (default: 1 byte)"))
+                        (0u8, crate::engine::chooser::deviate(posted, "which posted buffer the device fills (default: oldest)"), if self.buf_len > 65536 { choose(lens.len(), "frame length") } else { 1 + crate::engine::chooser::deviate(2, "frame length (default: 1 byte)") })
                     }
                     1 => (1, 0, 0),
                     2 => {
